@@ -74,3 +74,17 @@ CHECKS['C07'] = dict(
     technique='exhaustive bounded program enumeration on the real VM vs reference evaluator; cross-build differential',
     assumptions=['opcode numbering 0x3E=BITOR 0x3F=BITAND as implemented by the GDL compiler (doc rows are swapped, DESIGN 5.2)'],
 )
+
+CHECKS['C18'] = dict(
+    level='model_checking',
+    steps=[dict(mode='asan', bin='c18_features')],
+    rule='fonts: all shipped + synthesised Feat/Sill families whose bit widths hit every residue around a 32-bit word boundary ((1,31,1) (16,16,1) (17,16) (15,15,2) (16,0,16,2), zero-settings features, 33x1, 9x8, 40 mixed, Feat v1, 129/130 zero-settings features) + S-full variants. '
+         'static: every gr_face_*/gr_fref_* feature, language and label query vs independent Feat/Sill/name readers (labels in 3 encodings x 6 requested languages, zero-/space-padded tags). '
+         'BFS: explicit-state search over histories of set(f,v) (f in a boundary feature subset, v in {0,1,mid,max,max+1,0xFFFF}) and clone, from start states {clone(NULL), defaults, each language}; after EVERY operation ALL features are read and compared with a plain-array model; '
+         'state = value vector (deduplicated), depth chosen so that ops^depth <= 30k (quick) / 400k (thorough), each expansion replays the history on a fresh gr_feature_val',
+    state_meaning='states = distinct feature-value vectors reached; transitions = set/clone operations executed on real gr_feature_val objects and compared with the model',
+    level_text='Explicit-state BFS over API histories on real feature-value objects with a plain-array reference model, plus exhaustive static comparison of all feature/language/label queries with independent table readers.',
+    level_note='Trusted: reference Feat/Sill/name readers and the array model. Operations are drawn from a boundary subset of features (all features are observed). The language-id feature (id 1) and ids rewritten by tag zero-padding are excluded as unspecified.',
+    technique='explicit-state BFS over API histories on the real code vs reference model',
+    assumptions=['setting values are compared as unsigned 16-bit', 'name record 0 unretrievable fonts are skipped for labels (DESIGN 7.6)'],
+)
